@@ -9,7 +9,7 @@ conf=$(cat /tmp/mut/$id/_out/verify.result 2>/dev/null)
 python3 - "$dst/meta.json" "$prop" "$needs" "$det" "$tier" "$conf" "$id" <<'PY'
 import json,sys
 out,prop,needs,det,tier,conf,id=sys.argv[1:8]
-json.dump({"property":prop,"needs_to_manifest":needs,"origin":"sub-agent (twelfth round: property text only, nothing from /verif)",
+json.dump({"property":prop,"needs_to_manifest":needs,"origin":"sub-agent (thirteenth round: property text only, nothing from /verif)",
  "confirmed":conf,"detected_by":det.split(","),"detected_in_tier":tier,"how_run":f"tools/seedtest.sh seeded/{id}/patch.diff {det.split(',')[0]}"},open(out,"w"),indent=1)
 PY
 git -C /repo worktree remove --force /tmp/mut/$id 2>/dev/null; rm -rf /tmp/mut/$id
